@@ -824,10 +824,37 @@ func alwaysErrorCall(c *ssa.Call, depth int) bool {
 type bwrite struct {
 	call *ssa.Call
 	text ssa.Value
+	sub  *ssa.Function // a product function that is handed the builder and writes its part
+	subP int           // the parameter of sub that receives the builder
 }
 
 func (x *Evaluator) builderText(al *ssa.Alloc, at *ssa.Call, e *env, c *evalCtx) Tmpl {
-	fn := al.Parent()
+	return x.builderTextOf(al, al.Parent(), at, e, c, 0)
+}
+
+// builderTextOf: as builderText, for a builder reached through bp (a local, or a parameter
+// that points to the caller's builder); at == nil: what has been written when fn returns.
+func (x *Evaluator) builderTextOf(bp ssa.Value, fn *ssa.Function, at *ssa.Call, e *env, c *evalCtx, depth int) Tmpl {
+	if bp.Referrers() == nil || depth > 3 {
+		return Tmpl{Unknown{"builder handed to other code"}}
+	}
+	al := bp
+	var atBlock *ssa.BasicBlock
+	if at != nil {
+		atBlock = at.Block()
+	}
+	// the block(s) at which the text is taken: the call of String, or every return
+	domAt := func(b *ssa.BasicBlock) bool {
+		if atBlock != nil {
+			return b == atBlock || b.Dominates(atBlock)
+		}
+		for _, rb := range fn.Blocks {
+			if _, isRet := rb.Instrs[len(rb.Instrs)-1].(*ssa.Return); isRet && !(b == rb || b.Dominates(rb)) {
+				return false
+			}
+		}
+		return true
+	}
 	var ws []bwrite
 	for _, ref := range *al.Referrers() {
 		call, ok := ref.(*ssa.Call)
@@ -837,21 +864,35 @@ func (x *Evaluator) builderText(al *ssa.Alloc, at *ssa.Call, e *env, c *evalCtx)
 			}
 			return Tmpl{Unknown{"builder handed to other code"}}
 		}
-		if call == at {
+		if at != nil && call == at {
 			continue
-		}
-		if len(call.Call.Args) == 0 || call.Call.Args[0] != ssa.Value(al) {
-			return Tmpl{Unknown{"builder handed to other code"}}
 		}
 		callee := call.Call.StaticCallee()
 		if callee == nil {
 			return Tmpl{Unknown{"builder handed to other code"}}
 		}
+		if len(call.Call.Args) == 0 || call.Call.Args[0] != ssa.Value(al) || (x.W.IsProduct(pkgOf(callee)) && callee.Blocks != nil) {
+			// handed to a function of the product that writes its part
+			idx := -1
+			for i, a := range call.Call.Args {
+				if a == ssa.Value(al) {
+					if idx >= 0 {
+						return Tmpl{Unknown{"builder handed to other code"}}
+					}
+					idx = i
+				}
+			}
+			if idx < 0 || !x.W.IsProduct(pkgOf(callee)) || callee.Blocks == nil || idx >= len(callee.Params) || call.Call.IsInvoke() {
+				return Tmpl{Unknown{"builder handed to other code"}}
+			}
+			ws = append(ws, bwrite{call: call, sub: callee, subP: idx})
+			continue
+		}
 		switch callee.String() {
 		case "(*strings.Builder).WriteString":
-			ws = append(ws, bwrite{call, call.Call.Args[1]})
+			ws = append(ws, bwrite{call: call, text: call.Call.Args[1]})
 		case "(*strings.Builder).WriteByte", "(*strings.Builder).WriteRune", "(*strings.Builder).Write":
-			ws = append(ws, bwrite{call, nil})
+			ws = append(ws, bwrite{call: call})
 		case "(*strings.Builder).String", "(*strings.Builder).Len", "(*strings.Builder).Grow":
 		case "(*strings.Builder).Reset":
 			return Tmpl{Unknown{"builder that is reset"}}
@@ -872,7 +913,7 @@ func (x *Evaluator) builderText(al *ssa.Alloc, at *ssa.Call, e *env, c *evalCtx)
 		var out *ssa.BasicBlock
 		for h := loops[b]; h != nil; {
 			body := loopBody(h)
-			if body[at.Block()] {
+			if atBlock != nil && body[atBlock] {
 				break
 			}
 			out = h
@@ -890,6 +931,13 @@ func (x *Evaluator) builderText(al *ssa.Alloc, at *ssa.Call, e *env, c *evalCtx)
 		return out
 	}
 	piece := func(w bwrite) Tmpl {
+		if w.sub != nil {
+			prevCall := x.curCall
+			x.curCall = w.call
+			ne := x.bindCall(w.sub, w.call.Call.Args, e, c, nil, nil)
+			x.curCall = prevCall
+			return x.builderTextOf(w.sub.Params[w.subP], w.sub, nil, ne, c, depth+1)
+		}
 		if w.text == nil {
 			// a constant byte or rune is the character it stands for
 			if len(w.call.Call.Args) == 2 {
@@ -923,11 +971,11 @@ func (x *Evaluator) builderText(al *ssa.Alloc, at *ssa.Call, e *env, c *evalCtx)
 			continue
 		}
 		t := piece(w)
-		if w.call.Block() == at.Block() && instrIndex(w.call) > instrIndex(at) {
+		if at != nil && w.call.Block() == atBlock && instrIndex(w.call) > instrIndex(at) {
 			i++
 			continue // written after the text was taken
 		}
-		if w.call.Block() == at.Block() || w.call.Block().Dominates(at.Block()) {
+		if domAt(w.call.Block()) {
 			out = cat(out, t)
 		} else {
 			out = cat(out, mkAlt("", Tmpl{}, t))
